@@ -472,8 +472,8 @@ def gen_factory_program(rng: Any) -> dict[str, Any]:
         r = rng.random()
         if r < 0.45:
             tid = fresh()
-            outcome = rng.choice(["return", "return", "return", "raise"])
-            if outcome == "raise" and not swallow:
+            outcome = rng.choice(["return", "return", "return", "raise", "teardown_raise"])
+            if outcome in ("raise", "teardown_raise") and not swallow:
                 if will_crash or rng.random() < 0.6:
                     outcome = "return"
                 else:
@@ -550,6 +550,18 @@ class FactoryRun:
                 run.raised[tid] = exc
                 run.log("task-end", tid, how="raise")
                 raise exc
+            if spec["outcome"] == "teardown_raise":
+                # the task body ends normally, but a teardown callback of the task's own context fails: that
+                # exception escapes the task as well
+                exc = make_exc(spec["exc"], f"task{tid}-teardown")
+                run.raised[tid] = exc
+
+                def failing_teardown() -> None:
+                    raise exc
+
+                ctx.add_teardown_callback(failing_teardown)
+                run.log("task-end", tid, how="raise", in_own_teardown=True)
+                return
             run.log("task-end", tid, how="return")
 
         if spec["task_status"] and spec["via"] == "start_task":
@@ -864,7 +876,9 @@ def check_factory(run: FactoryRun) -> tuple[list[dict[str, Any]], dict[str, int]
     raisers = [tid for tid, e in end.items() if e["how"] == "raise"]
     for tid in raisers:
         exc = run.raised[tid]
-        n = sum(1 for x in run.handler_calls if x is exc)
+        n = sum(1 for x in run.handler_calls if contains_same(x, exc))
+        if end[tid].get("in_own_teardown"):
+            inc("exceptions_from_task_context_teardown")
         inc("exceptions_escaping_tasks")
         if prog["handler"] is not None and n != 1:
             bad("factory-handler-count", f"the exception handler was called {n} times for the exception raised by task {tid}")
@@ -877,7 +891,7 @@ def check_factory(run: FactoryRun) -> tuple[list[dict[str, Any]], dict[str, int]
             if not contains_same(run.root_boundary, exc):
                 bad("factory-exception-vanished", f"task {tid} raised {describe_exc(exc)} (handler verdict {verdict!r}) but the root context raised "
                                                   f"{describe_exc(run.root_boundary)}")
-    stray_handler = [x for x in run.handler_calls if not any(x is run.raised[t] for t in run.raised)]
+    stray_handler = [x for x in run.handler_calls if not any(contains_same(x, run.raised[t]) for t in run.raised)]
     if stray_handler:
         bad("factory-handler-count", f"the exception handler was called with {describe_exc(stray_handler[0])}, which no task raised (cancellations must not reach it)")
     if not fatal and run.root_boundary is not None:
